@@ -12,7 +12,7 @@ printer.
 
 Rust item (content.rs, after the `fix:` commits of C08)      model definition
 -----------------------------------------------------------  ---------------------------------------------
-`f32` with `==`, unary `-`, `i32 as f32`, `{}`               `RealOps R` (`beq neg ofInt toInt? special`)
+`f32` with `==`, unary `-`, `i32 as f32`, `{}`               `RealOps R` (`beq neg ofInt intDigits? big special`)
 `primitive::Primitive`                                       `Prim R` (no streams: not a possible operand)
 `content::Op`, `Point`, `ViewRect`, `Matrix`, `Color`, …     `Op R`, `Pt R`, `Color R`, `TDA R`, enums as `Fin`
 `struct Real(f32)` + `Display`                               `numPrim?` / `numTok`
@@ -32,14 +32,18 @@ token level.
 
 namespace Content
 
-/-- The operations on `f32` that content.rs uses.  `toInt? r = some n` iff `r` is finite and integral with
-    value `n` (then `{}` prints the digits of `n`, `-0` for negative zero); `special r = some s` iff `r` is
-    not finite (`{}` prints `NaN`, `inf`, `-inf`). -/
+/-- The operations on `f32` that content.rs uses.
+    `intDigits? r = some n`: `{}` prints `r` without a decimal point, as the digits of the integer `n`
+    (`r` is finite and integral; `n` is the shortest decimal that reads back to `r`, padded with zeros, so
+    `n` is the value of `r` only below 2^24; `-0` prints as `-0`, `n = 0`).
+    `big r`: `r.fract() == 0.0 && r.abs() >= 2147483648.0` (the test of `struct Real`).
+    `special r = some s` iff `r` is not finite (`{}` prints `NaN`, `inf`, `-inf`). -/
 structure RealOps (R : Type) where
   beq : R → R → Bool
   neg : R → R
   ofInt : Int → R
-  toInt? : R → Option Int
+  intDigits? : R → Option Int
+  big : R → Bool
   special : R → Option String
 
 structure Pt (R : Type) where
@@ -161,8 +165,8 @@ def numPrim? {R : Type} (ro : RealOps R) (r : R) : Option (Prim R) :=
   match ro.special r with
   | some _ => none
   | none =>
-    match ro.toInt? r with
-    | some n => if decide (-2147483648 < n) && decide (n < 2147483648) then some (.int n) else some (.real r)
+    match ro.intDigits? r with
+    | some n => if ro.big r then some (.real r) else some (.int n)
     | none => some (.real r)
 
 /-- a real operand written at the top level of the stream: an operand, or the bare word `NaN`/`inf`/`-inf` -/
@@ -186,7 +190,7 @@ def primReal? {R : Type} (ro : RealOps R) (cfg : Cfg) (r : R) : Option (Prim R) 
   | some _ => none
   | none =>
     if cfg.primDot then some (.real r) else
-    match ro.toInt? r with
+    match ro.intDigits? r with
     | some n => if inI32 n then some (.int n) else none
     | none => some (.real r)
 
